@@ -375,7 +375,9 @@ impl Loop {
                     // a raw request whose parameter position holds several segments (only a regex parameter routes it)
                     let i = m["index"].as_u64().unwrap() as usize;
                     if i < path.len() {
-                        let segs: Vec<String> = m["values"].as_array().unwrap().iter().map(|v| pct(v.as_str().unwrap())).collect();
+                        let raw = m["raw"].as_bool().unwrap_or(false);     // raw: the values are already in their wire form
+                        let segs: Vec<String> = m["values"].as_array().unwrap().iter()
+                            .map(|v| if raw { v.as_str().unwrap().to_string() } else { pct(v.as_str().unwrap()) }).collect();
                         path.splice(i..i + 1, segs);
                     }
                 }
